@@ -32,26 +32,6 @@ func (p *Prog) seqProducerShape() seqShape {
 		return res
 	}
 	cz := p.canonFor(fn)
-	// string-valued entries a made map certainly has when it is stored elsewhere: key canon -> true, per MakeMap
-	stringEntry := func(mk *ssa.MakeMap, keyCanon string, before ssa.Instruction) bool {
-		found := false
-		bad := false
-		eachInstr(fn, func(b *ssa.BasicBlock, in ssa.Instruction) {
-			mu, ok := in.(*ssa.MapUpdate)
-			if !ok || mu.Map != ssa.Value(mk) || cz.of(mu.Key) != keyCanon {
-				return
-			}
-			mi, ok := mu.Value.(*ssa.MakeInterface)
-			if !ok || !isStringType(mi.X.Type()) {
-				bad = true
-				return
-			}
-			if (in.Block() == before.Block() && indexIn(in) < indexIn(before)) || (in.Block() != before.Block() && in.Block().Dominates(before.Block())) {
-				found = true
-			}
-		})
-		return found && !bad
-	}
 	n := 0
 	eachInstr(fn, func(b *ssa.BasicBlock, in ssa.Instruction) {
 		mu, ok := in.(*ssa.MapUpdate)
@@ -80,7 +60,8 @@ func (p *Prog) seqProducerShape() seqShape {
 		if isStringType(mi.X.Type()) && k != "load(mxj.attrK)" {
 			return // NoRoot form: a plain string, which the encoder does not assert on
 		}
-		mk, ok := mi.X.(*ssa.MakeMap)
+		root := &mmFrame{fn: fn}
+		info, ok := p.madeMapOf(mi.X, root, 0)
 		if !ok {
 			res.ok = false
 			res.details = append(res.details, "value stored under "+k+" at "+p.Pos(in.Pos())+" is not a map made by the decoder")
@@ -88,25 +69,34 @@ func (p *Prog) seqProducerShape() seqShape {
 		}
 		if k == "load(mxj.attrK)" {
 			// every entry of the attribute map is itself a made map
-			eachInstr(fn, func(b2 *ssa.BasicBlock, in2 ssa.Instruction) {
-				mu2, ok := in2.(*ssa.MapUpdate)
-				if !ok || mu2.Map != ssa.Value(mk) {
-					return
-				}
-				mi2, ok := mu2.Value.(*ssa.MakeInterface)
-				if !ok {
+			for _, e := range info.entries {
+				ev, efr := e.value()
+				if _, isMade := p.madeMapOf(ev, efr, 0); !isMade {
 					res.ok = false
-					return
+					res.details = append(res.details, "attribute entry stored at "+p.Pos(e.at.Pos())+" is not a map")
 				}
-				if _, isMk := mi2.X.(*ssa.MakeMap); !isMk {
-					res.ok = false
-					res.details = append(res.details, "attribute entry stored at "+p.Pos(in2.Pos())+" is not a map")
-				}
-			})
+			}
 			return
 		}
 		for _, nk := range need {
-			if !stringEntry(mk, nk, in) {
+			found, bad := false, false
+			for _, e := range info.entries {
+				if e.key != nk {
+					continue
+				}
+				ev, _ := e.value()
+				mi2, isMi := ev.(*ssa.MakeInterface)
+				if !isMi || !isStringType(mi2.X.Type()) {
+					bad = true
+					continue
+				}
+				// set before the map is stored: in the same function the entry's instruction must precede the store; an entry made
+				// inside a helper is complete when the helper returns
+				if e.frame.fn != fn || (e.at.Block() == in.Block() && indexIn(e.at) < indexIn(in)) || (e.at.Block() != in.Block() && e.at.Block().Dominates(in.Block())) {
+					found = true
+				}
+			}
+			if !found || bad {
 				res.ok = false
 				res.details = append(res.details, fmt.Sprintf("map stored under %s at %s lacks a string entry %s set before the store", k, p.Pos(in.Pos()), nk))
 			}
@@ -127,12 +117,48 @@ func (p *Prog) seqProducerShape() seqShape {
 
 // shapeContract: is this assertion one of the consumer-side shape assertions of the sequence encoder, and does the producer check pass?
 func (p *Prog) shapeContract(fn *ssa.Function, ta *ssa.TypeAssert) string {
-	if p.Name(fn) != "mxj.mapToXmlSeqIndent" {
-		return ""
+	enc := p.Fn("mxj.mapToXmlSeqIndent")
+	inHelper := false
+	if fn != enc {
+		// an unexported helper that only the sequence encoder calls (the attribute loop moved out of it, for instance)
+		sites := p.CG().sites[fn]
+		if enc == nil || p.Exported(fn) || len(sites) == 0 {
+			return ""
+		}
+		for _, site := range sites {
+			if site.Parent() != enc {
+				return ""
+			}
+		}
+		inHelper = true
 	}
 	cz := p.canonFor(fn)
 	x := cz.of(ta.X)
 	guards := dominatingGuards(ta.Block())
+	if inHelper {
+		// the conditions under which the helper is called hold inside it: take those common to all call sites (by canonical form)
+		czE := p.canonFor(enc)
+		var common []guard
+		for i, site := range p.CG().sites[fn] {
+			gs := dominatingGuards(site.Block())
+			if i == 0 {
+				common = gs
+				continue
+			}
+			var keep []guard
+			for _, g := range common {
+				for _, g2 := range gs {
+					if g.Pol == g2.Pol && czE.of(g.Cond) == czE.of(g2.Cond) {
+						keep = append(keep, g)
+						break
+					}
+				}
+			}
+			common = keep
+		}
+		cz = czE
+		guards = append(guards, common...)
+	}
 	keyIs := func(name string) bool {
 		for _, g := range guards {
 			ng := normGuard(g)
